@@ -15,6 +15,9 @@ interprets what this translator reads from the text of the definitions:
                                     gen_shake_steps   calls made when the guard does not fire
   dss::init / dss::close            gen_init_steps / gen_close_steps  (calls, with `if (cond on the argument)`)
   dss::clear_evaluators             gen_clear_steps
+  src_search::tune_parameters       gen_tune_{dss,perc}_open user   (the test that decides "left open by the user"),
+                                    gen_tune_*_dynamic_typeid (typeid of the object, not of the pointer),
+                                    gen_dflt_* (environment::init)
   dss::shake_impl                   gen_shake_impl_shape  (sequence of the recognised statements)
                                     gen_ratio / gen_target_size  (binary64 expressions -> Gen/ValidTargetFacts.v,
                                     generate_target)
@@ -410,6 +413,47 @@ def dss_facts(src, out, problems):
     out.append("Definition gen_shake_impl_shape : list shape_tok := [%s]." % "; ".join(shape))
 
 
+# ------------------------------------ src_search::tune_parameters (search.tcc)
+def tune_facts(snap, out):
+    with open(os.path.join(snap, "kernel/gp/src/search.tcc")) as f:
+        src = strip_comments(f.read())
+    body = body_of(src, r"void\s+src_search<T,\s*ES>::tune_parameters\s*\(\s*\)")
+    if body is None:
+        raise Outside("src_search::tune_parameters not found")
+    with open(os.path.join(snap, "kernel/environment.cc")) as f:
+        esrc = strip_comments(f.read())
+    ibody = body_of(esrc, r"environment\s*&\s*environment::init\s*\(\s*\)")
+    if ibody is None:
+        raise Outside("environment::init not found")
+    for field, cls, tag in (("dss", "dss", "dss"), ("validation_percentage", "holdout_validation", "perc")):
+        m = re.search(r"if\s*\(([^;{}]*?)\)\s*env\.%s\s*=\s*dflt\.%s\s*;" % (field, field), body, re.S)
+        if not m:
+            raise Outside("tune_parameters: no `if (...) env.%s = dflt.%s;`" % (field, field))
+        parts = [squash(x) for x in m.group(1).split("&&")]
+        if len(parts) != 2:
+            raise Outside("tune_parameters: guard of env.%s" % field)
+        a, b = parts
+        if a == "!constrained.%s.has_value()" % field:
+            opened = "(user =? sentinel)"
+        else:
+            mm = re.fullmatch(r"!constrained\.%s\.value_or\((\d+)\)" % field, a)
+            if not mm:
+                raise Outside("tune_parameters: `%s`" % a)
+            opened = "((if user =? sentinel then %s else user) =? 0)" % mm.group(1)
+        if b == "typeid(*this->vs_)==typeid(%s)" % cls:
+            dyn = "true"
+        elif b == "typeid(this->vs_.get())==typeid(%s)" % cls:
+            dyn = "false"            # static type of a pointer: never the class type
+        else:
+            raise Outside("tune_parameters: `%s`" % b)
+        d = re.search(r"(?<![\w.])%s\s*=\s*(\d+)\s*;" % field, ibody)
+        if not d:
+            raise Outside("environment::init: default of %s" % field)
+        out.append("Definition gen_tune_%s_open (user : Z) : bool := %s." % (tag, opened))
+        out.append("Definition gen_tune_%s_dynamic_typeid : bool := %s." % (tag, dyn))
+        out.append("Definition gen_dflt_%s : Z := %s." % (tag, d.group(1)))
+
+
 HEADER = """(* GENERATED by translate/valid_facts.py from kernel/gp/src/holdout_validation.cc and
    kernel/gp/src/dss.cc -- do not edit.  Definitions only; interpreted by Valid/ValidDefs.v. *)
 From Coq Require Import ZArith List Bool.
@@ -419,6 +463,8 @@ Local Open Scope bool_scope.
 
 Definition two32 : Z := 4294967296.
 Definition two64 : Z := 18446744073709551616.
+(* facultative<unsigned>: the empty value is numeric_limits<unsigned>::max() *)
+Definition sentinel : Z := 4294967295.
 
 (* calls made by dss::init / shake / close / clear_evaluators, in order *)
 Inductive gstep :=
@@ -437,6 +483,7 @@ def generate(snap):
             holdout_facts(strip_comments(f.read()), out, problems)
         with open(os.path.join(snap, "kernel/gp/src/dss.cc")) as f:
             dss_facts(strip_comments(f.read()), out, problems)
+        tune_facts(snap, out)
     except Outside as e:
         problems.append("outside the translated subset: %s" % e)
     except (OSError, IndexError) as e:
